@@ -97,6 +97,9 @@ impl %(n)s {
     pub fn new(value: f64) -> (r: %(n)s) ensures r@ == f64_real(value), r.0 == value { %(n)s(value) }
     pub fn as_f64(&self) -> (r: f64) ensures f64_real(r) == self@, r == self.0 { self.0 }
     pub fn to_f64(&self) -> (r: f64) ensures f64_real(r) == self@, r == self.0 { self.0 }
+    // Ord::min / Ord::max of the ordered_float wrapper (A-REAL)
+    pub fn min(self, other: %(n)s) -> (r: %(n)s) ensures r == (if self@ <= other@ { self } else { other }) { broadcast use areal; proof { areal_obeys(); } if self.0 <= other.0 { self } else { other } }
+    pub fn max(self, other: %(n)s) -> (r: %(n)s) ensures r == (if self@ >= other@ { self } else { other }) { broadcast use areal; proof { areal_obeys(); } if self.0 >= other.0 { self } else { other } }
 %(consts)s
 %(extra)s
 }
